@@ -32,7 +32,7 @@ func Fixture(name string) []byte {
 
 const (
 	NX25519 = 8
-	NEd     = 6
+	NEd     = 8 // keys 5..7 have SSH tags containing '/' or '+' (alphabet-sensitive)
 	NRSA    = 5
 	NPass   = 6
 )
